@@ -241,7 +241,8 @@ def build_case(case):
 # ------------------------------------------------------------------ list mutation histories
 # op = {"at": [child indexes from the root to a List], "op": name, ...args, "nodes": [new member nodes]}
 
-LIST_OPS = ["pop", "pop", "insert", "delitem", "delslice", "setslice", "reverse", "sort", "remove", "iadd", "append"]
+LIST_OPS = ["pop", "pop", "insert", "insert", "delitem", "delslice", "setslice", "setitem", "reverse", "sort", "remove",
+            "iadd", "append", "append"]
 
 
 def _node_at(tree, pos):
@@ -282,6 +283,8 @@ def _number_from(node, start):
 def simulate_op(tree, op):
     """apply one list operation to the description (in place) with Python's list semantics;
     raises on an operation Python would reject"""
+    if op["op"] == "query":
+        return  # evaluating a path does not change the tree
     n = _node_at(tree, op["at"])
     if op["op"] == "setfield":
         # SparseDict item assignment of an instance of a renamed subclass of the field schema: stored under
@@ -309,6 +312,8 @@ def simulate_op(tree, op):
         del K[slice(op["a"], op["b"], op["c"])]
     elif name == "setslice":
         K[op["a"]:op["b"]] = new
+    elif name == "setitem":
+        K[op["i"]] = new[0]
     elif name == "reverse":
         K.reverse()
     elif name == "sort":
@@ -330,18 +335,51 @@ def simulate(init, history):
     return t
 
 
+QUERY_PATHS = ["/", "/0", "/[:]", "/[0]", "/[-1]", "/..", "..", "../..", "../0", ".", "[:]", "0", "/1", "/[::-1]"]
+
+
+def _descend(el, rel):
+    for i in rel:
+        el = list(el.children)[i]
+    return el
+
+
+def _query(el, path):
+    """evaluate a path from an element in the middle of a history (result not used: the point is that
+    evaluation must not leave state behind that a later evaluation depends on)"""
+    try:
+        el.find(path, strict=False)
+    except (LookupError, ValueError, TypeError):
+        pass
+    try:
+        el.find(path, single=True, strict=False)
+    except (LookupError, ValueError, TypeError):
+        pass
+
+
 def apply_history(root, history):
-    """the same operations on the real elements, through the public List API"""
+    """the same operations on the real elements, through the public List API.
+    `query` ops evaluate paths from elements of the tree in between; insertion ops marked
+    `detached` first build the new members as free-standing elements, evaluate paths from inside
+    them (`pre`: [position inside the new member, path]) and only then graft the very same
+    element objects into the tree."""
     for op in history:
         lst = root
         for i in op["at"]:
             lst = list(lst.children)[i]
-        vals = [value_of(n) for n in op.get("nodes", [])]
         name = op["op"]
+        if name == "query":
+            _query(lst, op["path"])
+            continue
+        vals = [value_of(n) for n in op.get("nodes", [])]
         if name == "setfield":
             field = [f for f in lst.field_schema if f.name == op["key"]][0]
             lst[op["key"]] = field.named(op["nodes"][0]["name"])(vals[0])
             continue
+        if op.get("detached"):
+            vals = [lst.member_schema(v) for v in vals]
+            for k, rel, path in op.get("pre", []):
+                _query(_descend(vals[k], rel), path)
         if name == "pop":
             lst.pop(op["i"])
         elif name == "insert":
@@ -352,6 +390,8 @@ def apply_history(root, history):
             del lst[slice(op["a"], op["b"], op["c"])]
         elif name == "setslice":
             lst[op["a"]:op["b"]] = vals
+        elif name == "setitem":
+            lst[op["i"]] = vals[0]
         elif name == "reverse":
             lst.reverse()
         elif name == "sort":
@@ -368,6 +408,17 @@ def apply_history(root, history):
             raise ValueError(name)
 
 
+def _positions(node):
+    out = []
+
+    def go(n, pos):
+        out.append(pos)
+        for i, k in enumerate(n["kids"]):
+            go(k, pos + [i])
+    go(node, [])
+    return out
+
+
 def _sparse_positions(tree):
     out = []
 
@@ -380,7 +431,7 @@ def _sparse_positions(tree):
     return out
 
 
-def rand_history(rng, tree, nops, setfield=0.0):
+def rand_history(rng, tree, nops, setfield=0.0, queries=0.25, detached=0.5):
     """(final tree, history): `nops` random operations on random List nodes (any depth) of the
     evolving tree; with probability `setfield` an operation is instead a SparseDict item assignment
     of an instance of a renamed subclass of the field schema (the KF-C10-a state)"""
@@ -404,6 +455,9 @@ def rand_history(rng, tree, nops, setfield=0.0):
             simulate_op(t, op)
             hist.append(op)
             continue
+        if queries and rng.random() < queries:
+            # evaluate a path from a random element of the tree as it is now
+            hist.append({"at": rng.choice(_positions(t)), "op": "query", "path": rng.choice(QUERY_PATHS)})
         lists = _list_positions(t)
         if not lists:
             break
@@ -441,13 +495,62 @@ def rand_history(rng, tree, nops, setfield=0.0):
             if not scalar_members:
                 continue
             op["reverse"] = rng.random() < 0.5
+        elif name == "setitem":
+            if L == 0:
+                continue
+            op["i"] = rng.randrange(-L, L)
+            op["nodes"] = fresh(1)
         elif name == "iadd":
             op["nodes"] = fresh(rng.choice([1, 2]))
         elif name == "append":
             op["nodes"] = fresh(1)
+        if name == "setitem" or (op.get("nodes") and rng.random() < detached):
+            # the new members are built as free-standing elements, queried, and then grafted
+            # (item assignment replaces the member only when handed an Element)
+            op["detached"] = True
+            op["pre"] = []
+            for k, m in enumerate(op["nodes"]):
+                for _ in range(rng.choice([0, 1, 1, 2])):
+                    op["pre"].append([k, rng.choice(_positions(m)), rng.choice(QUERY_PATHS)])
         simulate_op(t, op)
         hist.append(op)
+    if queries and hist and rng.random() < queries:
+        hist.append({"at": rng.choice(_positions(t)), "op": "query", "path": rng.choice(QUERY_PATHS)})
     return t, hist
+
+
+def root_lazy_demo_cases():
+    """the two scenarios of /verif/seeded/C14-root-lazy-property/demo.py as (init, history, final, starts)"""
+    out = []
+    leaf = lambda name: {"k": "s", "name": name, "kids": []}
+    # 1: a scalar queried while detached, then appended
+    names = number({"k": "l", "name": "names", "member": {"k": "s", "name": "n"}, "kids": [leaf("n")]})
+    early = dict(leaf("n"), id=_max_id(names) + 1)
+    h = [{"at": [], "op": "append", "nodes": [early], "detached": True, "pre": [[0, [], "/"]]}]
+    out.append({"init": names, "history": h, "tree": simulate(names, h), "starts": [0, 1, early["id"]]})
+    # 2: a subtree queried from inside while detached, then grafted
+    addr_schema = {"k": "d", "name": "addr", "fields": [{"k": "s", "name": "street"}, {"k": "s", "name": "city"}]}
+    addr = lambda: {"k": "d", "name": "addr", "kids": [leaf("street"), leaf("city")]}
+    book = number({"k": "l", "name": "book", "member": addr_schema, "kids": [addr()]})
+    new = addr()
+    _number_from(new, _max_id(book) + 1)
+    h = [{"at": [], "op": "append", "nodes": [new], "detached": True, "pre": [[0, [1], "/street"]]}]
+    out.append({"init": book, "history": h, "tree": simulate(book, h),
+                "starts": [0, new["id"], new["kids"][0]["id"], new["kids"][1]["id"]]})
+    return out
+
+
+def grafted_ids(history):
+    """ids of the elements that were built detached and queried before being grafted"""
+    out = []
+    for op in history or []:
+        if op.get("detached"):
+            for k, rel, _ in op.get("pre", []):
+                n = op["nodes"][k]
+                for i in rel:
+                    n = n["kids"][i]
+                out.append(n["id"])
+    return out
 
 
 def lean_tree(tree):
@@ -587,6 +690,14 @@ def doc_parent(el):
     return p
 
 
+def doc_root(el):
+    """the root of the tree the element is in now: follow the parent pointers (not `Element.root`,
+    which is the thing under test for a leading '/')"""
+    while el.parent is not None:
+        el = el.parent
+    return el
+
+
 def doc_child(el, s):
     """the child of `el` named `s` (index number = name for sequences), or None"""
     from flatland.schema.containers import Mapping, Sequence
@@ -635,7 +746,7 @@ def doc_step(st, el, strict):
 
 def doc_denote(ast, start, strict):
     """list of elements, or raises LookupError"""
-    cur = [start.root if ast["top"] else start]
+    cur = [doc_root(start) if ast["top"] else start]
     for st in ast["steps"]:
         nxt = []
         for el in cur:
